@@ -240,3 +240,7 @@ fn default_slew_minimum_duration() -> f64 {
 fn default_meddling_threshold() -> NtpDuration {
     NtpDuration::from_seconds(5.)
 }
+
+#[cfg(feature = "pendulum_project_ntpd_rs_verif")]
+#[path = "/verif/hooks/ntp-proto/algorithm_kalman_config.rs"]
+pub mod verif_hooks;
